@@ -61,6 +61,91 @@ def token_attrs(ctx):
     return out
 
 
+def _unrust(raw, lit):
+    """the value of a Rust string literal body (`raw` = it was written r"...")"""
+    if raw:
+        return lit
+    return re.sub(r"\\(.)", lambda m: {"n": "\n", "t": "\t", "r": "\r", "0": "\0"}.get(m.group(1), m.group(1)), lit)
+
+
+def lexical_patterns(ctx, adt_path):
+    """{'skip': [regex], 'subs': [(name, regex)], 'regex': {variant: regex}, 'token': {variant: literal}} for a Logos enum,
+    read from the attribute text between the enum's derive and its variants."""
+    adt = ctx.db.adt(adt_path)
+    f, ln, col = adt["span"].rsplit(":", 2)
+    lines = open(os.path.join(repo_root(ctx), f)).read().split("\n")
+    ln = int(ln)
+    # header: walk up over the attribute / doc lines that precede the enum item
+    lo = ln - 1
+    while lo > 0 and re.match(r"\s*(#\[|///|//|pub enum|enum)", lines[lo - 1]) :
+        lo -= 1
+    vs = [(v["name"], int(v["span"].rsplit(":", 2)[1])) for v in adt["variants"]]
+    first = min(l for _, l in vs)
+    head = "\n".join(lines[lo:first - 1])
+    LIT = r'(r?)"((?:[^"\\]|\\.)*)"'
+    out = {"skip": [], "subs": [], "regex": {}, "token": {}}
+    for m in re.finditer(r"#\[logos\(\s*skip\s+" + LIT, head):
+        out["skip"].append(_unrust(m.group(1), m.group(2)))
+    for m in re.finditer(r"#\[logos\(\s*subpattern\s+(\w+)\s*=\s*" + LIT, head):
+        out["subs"].append((m.group(1), _unrust(m.group(2), m.group(3))))
+    prev = first - 1
+    for i, (name, l) in enumerate(sorted(vs, key=lambda x: x[1])):
+        chunk = "\n".join(lines[(sorted(vs, key=lambda x: x[1])[i - 1][1] if i else lo):l - 1])
+        ms = list(re.finditer(r"#\[(token|regex)\(\s*" + LIT, chunk))
+        if ms:
+            m = ms[-1]
+            out[m.group(1)][name] = _unrust(m.group(2), m.group(3))
+    return out
+
+
+def lexical(ctx):
+    """R12.10: the *languages* of the lexer's pattern tokens and skip rules equal the reviewed lexical grammar
+    (specs/lexical.json, written from LANGUAGE.md's `id` / `package-name` / `package-path` / `comment` / `whitespace`
+    productions): regex -> NFA -> DFA over code-point classes, equivalence by product search; a re-spelling of the
+    same language passes, any accepted/rejected string that changes is reported with a shortest witness."""
+    import rx
+    spec_p = os.path.join(engine.VERIF, "specs", "lexical.json")
+    if not os.path.exists(spec_p):
+        ctx.lost("R12.10", "specs/lexical.json")
+        return
+    spec = json.load(open(spec_p))
+    n = 0
+    for enum, ref in sorted(spec["enums"].items()):
+        try:
+            cur = lexical_patterns(ctx, enum)
+        except Exception as e:
+            ctx.lost("R12.10", "cannot read the Logos attributes of %s: %s" % (enum, e))
+            continue
+        site = ctx.db.adt(enum)["span"]
+        short = enum.split("::")[-1]
+        try:
+            subs = rx.subpatterns(cur["subs"])
+            refsubs = rx.subpatterns([tuple(x) for x in ref.get("subs", [])])
+            # skipped input: the union of all skip rules
+            if "skip" in ref:
+                a = ("alt", [rx.parse(r, subs) for r in cur["skip"]]) if cur["skip"] else ("seq", [("set", ())])
+                b = ("alt", [rx.parse(r, refsubs) for r in ref["skip"]])
+                ok, w = rx.equivalent(a, b)
+                n += 1
+                ctx.ob("R12.10", "skip|" + short, ok, "skipped input (%s) is the reviewed whitespace language" % " | ".join(cur["skip"]) if ok else
+                       "the skip rules %s differ from the reviewed whitespace language %s: %r — %s" % (cur["skip"], ref["skip"], w[0], w[1].replace("first", "lexer").replace("second", "reference")), site=site)
+            for v, r in sorted(ref["regex"].items()):
+                n += 1
+                if v not in cur["regex"]:
+                    ctx.ob("R12.10", "pattern|%s::%s" % (short, v), False, "no #[regex] attribute found for %s::%s" % (short, v), site=site)
+                    continue
+                ok, w = rx.equivalent(rx.parse(cur["regex"][v], subs), rx.parse(r, refsubs))
+                ctx.ob("R12.10", "pattern|%s::%s" % (short, v), ok, "`%s` denotes the reviewed language of %s" % (cur["regex"][v], v) if ok else
+                       "`%s` no longer denotes the reviewed language `%s` of %s: the string %r is accepted by %s" % (
+                           cur["regex"][v], r, v, w[0], "the lexer only" if "first" in w[1] else "the reference only"), site=site)
+            extra = sorted(set(cur["regex"]) - set(ref["regex"]))
+            ctx.ob("R12.10", "patterns-closed|" + short, not extra, "no pattern token beyond the reviewed ones" if not extra else
+                   "pattern token(s) %s have no reviewed language" % extra, site=site, nontrivial=False)
+        except rx.Unsupported as e:
+            ctx.lost("R12.10", "regex syntax outside the supported subset in %s: %s" % (enum, e))
+    ctx.floor("R12.10", 8)
+
+
 def display_table(ctx):
     """variant -> Display text, from the switch in <Token as Display>::fmt."""
     db, prov = ctx.db, ctx.prov
@@ -167,6 +252,7 @@ def run(ctx):
     whole_input(ctx)
     delimited(ctx)
     comment_scanner(ctx)
+    lexical(ctx)
     import c12_grammar
     c12_grammar.run(ctx)
 
